@@ -78,6 +78,8 @@ def _model_job(job) -> List[Dict[str, Any]]:
     by_short = {r.short: r for r in prog.roles()}
     out: List[Dict[str, Any]] = []
     mod = roles.model.module.name
+    entered: set = set()
+    out.append(dict(rule="__entered__", verdict="", module="", function="", construct="", line=0, names=entered, model_idx=idx))
     for case in _cases(prog, roles)[part::NPARTS]:
         op = case["op"]
         kw = {k: case[k] for k in ("teams", "ranks", "scores", "n") if k in case}
@@ -90,6 +92,7 @@ def _model_job(job) -> List[Dict[str, Any]]:
         base = dict(module=mod, function=f"{roles.model.name}.{op}", construct=label, line=roles.model.lookup(op).node.lineno)
         try:
             oc = run_op(prog, roles, op, foreign=foreign, **kw)
+            entered |= set(oc.I.functions_entered)
         except Exception as e:  # analysis failure on this case
             out.append(dict(base, rule="R13.3", verdict="UNDECIDED", message=f"abstract evaluation failed: {type(e).__name__}: {e}", detail={}))
             continue
@@ -198,8 +201,19 @@ def run(prog: Program, rep: Report, tier: str = "quick") -> None:
     rep.trust("own name/callee resolver")
     results = parallel_map(_model_job, [(i, p, tier == "thorough") for i in range(len(roles)) for p in range(NPARTS)])
     seen = set()
+    entered_by_model: Dict[Any, set] = {}
     for lst in results:
         for d in lst:
+            if d["rule"] == "__entered__":
+                entered_by_model.setdefault(d["model_idx"], set()).update(d["names"])
+    for lst in results:
+        for d in lst:
+            if d["rule"] == "__entered__":
+                continue
+            if d["rule"] == "R13.2s" and d["verdict"] == "VIOLATED" and f"{d['module']}::{d['function']}" not in entered_by_model.get(d.get("model"), {f"{d['module']}::{d['function']}"}):
+                # the name-based call graph reaches the function, but no abstract case of the whole argument grammar enters it
+                # (an abstract hook that every registered model overrides, a branch decided by the class): not a rejection point
+                d = dict(d, verdict="HOLDS", message="", detail={"note": "reached by the name-based call graph only; entered by no abstract case of the argument grammar"})
             key = (d["rule"], d["verdict"], d["module"], d["function"], d["construct"], d.get("message", ""), d.get("model", ""))
             if d["rule"] in ("R13.1", "R13.2", "R13.2s", "R13.4") and key in seen:
                 continue
